@@ -104,7 +104,7 @@ theorem depDate_ge (e : Env) (hG : 0 < e.G) (dp : Dep) (dt : Int) : dt + dp.gap 
   · rename_i hc
     simp only [Bool.and_eq_true, decide_eq_true_eq, beq_iff_eq] at hc
     rw [hc.2]
-    have := lenWalk_ge e hG (e.size.toNat + 2) dp.glen (e.idx dt) dt (Int.le_of_lt (lt_time_idx_succ e hG dt))
+    have := lenWalk_ge e hG (e.size.toNat + 3) dp.glen (e.idx dt) dt (Int.le_of_lt (lt_time_idx_succ e hG dt))
     omega
   · exact Int.le_refl _
 
